@@ -200,7 +200,14 @@ def slice_argument(ctx: Ctx):
     n = 0
     for _g, leaf in strip_ifexp_paths(body):
         if isinstance(leaf, ast.Call) and u(leaf.func).endswith(".factory"):
-            args = list(leaf.args)
+            from .common import positional_args
+
+            callee = ctx.repo.lookup(ctx.repo.cls(LY.MCM, "_BaseUnconditionalCubeCounts"), "factory")
+            args = positional_args(ctx, leaf, callee) if callee is not None else None
+            if args is None:
+                ctx.undecided("baseline-source.slice-argument", where, u(leaf)[:120], "arguments bound to (cube, dimensions, slice_idx)")
+                n += 1
+                continue
             tail = [u(a) for a in args[-3:]]
             n += 1
             ctx.ob("baseline-source.slice-argument", where, tail, "[self._cube, self._dimensions, self._slice_idx]", tail == ["self._cube", "self._dimensions", "self._slice_idx"],
